@@ -140,7 +140,7 @@ Valid(lang, v) ==
 
 (* Option sets that are documented to work on their own: every c vector; for cpp the three documented families         *)
 (* (plain std::vector, the c++17-pmr group, the cetl++14-17 group) with any language standard that has the library      *)
-(* parts the family needs, either spelling of the <vector> include, and any value of the family-independent options.    *)
+(* parts the family needs, either spelling of the <vector> include, and any DOCUMENTED value of the other options.      *)
 (* Only for these does "identical option sets => the build succeeds" say anything about the guard: other combinations   *)
 (* (e.g. a leading-allocator convention with std::vector) fail to build for reasons of their own.                       *)
 FamilyKeys == GroupKeys
@@ -156,8 +156,9 @@ FamilyProfiles ==
               sv \in {T_cpp17, T_cpp20}, inc \in {T_incVec, T_incVecQ}}
     \cup {Over(GroupCetl, [std |-> S(sv)]) : sv \in {T_cpp14, T_cpp17}}
 Coherent(lang, v) ==
-    \/ lang = "c"
-    \/ Restrict(Expand(lang, v), FamilyKeys) \in FamilyProfiles
+    /\ \A k \in KeySet(lang) \ (IF lang = "c" THEN {} ELSE FamilyKeys) : v[k] \in DocVals(lang, k)
+    /\ \/ lang = "c"
+       \/ Restrict(Expand(lang, v), FamilyKeys) \in FamilyProfiles
 
 (* One observed build of a translation unit that includes the type headers generated with option set a and the        *)
 (* support header generated with option set b:                                                                         *)
@@ -193,15 +194,9 @@ Poly == <<60856, 33568>>                                             \* 0xEDB883
 
 RECURSIVE Steps(_, _)
 Steps(p, n) == IF n = 0 THEN p ELSE Steps(IF (p[2] % 2) = 1 THEN XorW(Shr1(p), Poly) ELSE Shr1(p), n - 1)
-\* byte-at-a-time form of the same division: Tab[n] = the eight bit steps applied to the byte n (evaluated once)
-CrcTab == TLCEval([n \in 0..255 |-> Steps(<<0, n>>, 8)])
-Shr8(p) == <<p[1] \div 256, (p[2] \div 256) + (256 * (p[1] % 256))>>
 RECURSIVE CrcBytes(_, _, _)
-CrcBytes(bs, i, crc) ==
-    IF i > Len(bs) THEN crc ELSE CrcBytes(bs, i + 1, XorW(CrcTab[Xor16(crc[2] % 256, bs[i], 8)], Shr8(crc)))
+CrcBytes(bs, i, crc) == IF i > Len(bs) THEN crc ELSE CrcBytes(bs, i + 1, Steps(XorW(crc, <<0, bs[i]>>), 8))
 Crc32(bs) == XorW(CrcBytes(bs, 1, Ones), Ones)                       \* zlib.crc32, as limbs
-RECURSIVE CrcBitwise(_, _, _)                                        \* the defining bit-serial form (cross-checked below)
-CrcBitwise(bs, i, crc) == IF i > Len(bs) THEN XorW(crc, Ones) ELSE CrcBitwise(bs, i + 1, Steps(XorW(crc, <<0, bs[i]>>), 8))
 
 Limbs(p) == p
 Keep(p, bits) ==                                                     \* only the low `bits` bits (32 = all)
@@ -221,13 +216,15 @@ Render(val, hashbits) ==
     IF val.t = "s" THEN Limbs(Keep(Crc32(Utf8(val.v, 1)), hashbits))
     ELSE <<val.v[1] \div 65536, val.v[1] % 65536>>
 
+(* Tables over the documented values.  TLC re-evaluates a constant definition on every use inside an operator or LET  *)
+(* context, so the users of this module read these tables ONCE, at the top level of their initial predicate, into a   *)
+(* state variable that never changes, and pass that variable (tab) to the operators below.                            *)
 AllDocVals == UNION {UNION {DocVals(l, k) : k \in KeySet(l)} : l \in LangsAll}
-DocRender == TLCEval([x \in AllDocVals |-> Render(x, 32)])             \* evaluated once
-Render32(x) == IF x \in AllDocVals THEN DocRender[x] ELSE Render(x, 32)
+DocRender == TLCEval([x \in AllDocVals |-> Render(x, 32)])
 DocRenderWeak == TLCEval([x \in AllDocVals |-> Render(x, 1)])         \* a 1-bit hash: negative control of the design model
+RenderT(tab, x) == IF x \in DOMAIN tab THEN tab[x] ELSE Render(x, 32)
 
 ASSUME Limbs(Crc32(T_check)) = <<52212, 14630>>      \* 0xCBF43926, the catalogued check value of CRC-32/ISO-HDLC
-ASSUME CrcBitwise(T_check, 1, Ones) = <<52212, 14630>> /\ CrcBitwise(T_tplCetl, 1, Ones) = Crc32(T_tplCetl)
 ASSUME Render(S(T_Any), 32) = <<23742, 45396>>       \* 1556001108, the example in the filter's documentation
 ASSUME Render(S(T_empty), 32) = <<0, 0>>
 ASSUME Render(Bv(TRUE), 32) = <<0, 1>> /\ Render(Bv(FALSE), 32) = <<0, 0>>
@@ -242,6 +239,6 @@ NoCollision(lang, hashbits) ==
 IFired(lang, a, b, hashbits) ==
     LET ea == Expand(lang, a)  eb == Expand(lang, b)
     IN {k \in DOMAIN ea : Render(ea[k], hashbits) # Render(eb[k], hashbits)}
-IFired32(lang, a, b) ==
-    LET ea == Expand(lang, a)  eb == Expand(lang, b) IN {k \in DOMAIN ea : Render32(ea[k]) # Render32(eb[k])}
+IFiredT(tab, lang, a, b) ==
+    LET ea == Expand(lang, a)  eb == Expand(lang, b) IN {k \in DOMAIN ea : RenderT(tab, ea[k]) # RenderT(tab, eb[k])}
 =============================================================================
